@@ -404,3 +404,371 @@ Proof.
   - eexists. split; [reflexivity|]. auto.
   - intros i n Hi Hpos. destruct i; [lia|]. destruct i; discriminate.
 Qed.
+
+(* ================= the head computation only touches weights and best links ================= *)
+Definition strip (n : node) := (n_ref n, n_tp n, n_fp n, n_parent n, n_je n, n_fe n).
+Definition same_tree (pa pa' : parray) : Prop :=
+  pa_idx pa' = pa_idx pa /\ pa_bs pa' = pa_bs pa /\ pa_off pa' = pa_off pa /\ map strip (pa_nodes pa') = map strip (pa_nodes pa).
+Lemma same_tree_refl pa : same_tree pa pa. Proof. repeat split. Qed.
+Lemma same_tree_trans a b c : same_tree a b -> same_tree b c -> same_tree a c.
+Proof. unfold same_tree. intuition congruence. Qed.
+
+Lemma strip_nth l l' i (n : node) : map strip l' = map strip l -> nth_error l i = Some n ->
+  exists n', nth_error l' i = Some n' /\ strip n' = strip n.
+Proof.
+  intros H Hi. assert (E : nth_error (map strip l') i = nth_error (map strip l) i) by (rewrite H; reflexivity).
+  rewrite !nth_error_map, Hi in E. destruct (nth_error l' i) as [n'|]; [|discriminate]. cbn [option_map] in E.
+  exists n'. split; [reflexivity|congruence].
+Qed.
+Lemma strip_fields n n' : strip n' = strip n ->
+  n_ref n' = n_ref n /\ n_tp n' = n_tp n /\ n_parent n' = n_parent n /\ abs_node n' = abs_node n /\ tparent_ref n' = tparent_ref n.
+Proof. unfold strip, abs_node, tparent_ref. intros H. inversion H. repeat split; congruence. Qed.
+
+Lemma strip_set_best n a b : strip (set_best n a b) = strip n. Proof. reflexivity. Qed.
+Local Opaque strip.
+
+Lemma same_tree_abs pa pa' : same_tree pa pa' -> abs pa' = abs pa.
+Proof.
+  intros [_ [_ [_ H]]]. unfold abs. revert H. generalize (pa_nodes pa) as l. generalize (pa_nodes pa') as l'.
+  induction l' as [|a l' IH]; intros l H; destruct l as [|b l]; cbn [map] in *; try discriminate; [reflexivity|].
+  assert (H1 : strip a = strip b) by congruence. assert (H2 : map strip l' = map strip l) by congruence.
+  f_equal; [apply strip_fields; exact H1|apply IH; exact H2].
+Qed.
+Lemma same_tree_sym_nth pa pa' i n' : same_tree pa pa' -> nth_error (pa_nodes pa') i = Some n' ->
+  exists n, nth_error (pa_nodes pa) i = Some n /\ strip n' = strip n.
+Proof. intros [_ [_ [_ H]]] Hi. destruct (strip_nth (pa_nodes pa') (pa_nodes pa) i n' (eq_sym H) Hi) as [n [A B]]. eauto. Qed.
+
+Lemma Rel_same_tree pa pa' : same_tree pa pa' -> Rel pa -> Rel pa'.
+Proof.
+  intros HS HR. pose proof (same_tree_abs _ _ HS) as Ha. destruct HS as [Hi [Hb [Ho Hn]]].
+  constructor.
+  - intros i n' Hn'. destruct (same_tree_sym_nth pa pa' i n' (conj Hi (conj Hb (conj Ho Hn))) Hn') as [n [A B]].
+    apply strip_fields in B. destruct B as [B _]. rewrite Hi, Ho, B. eapply r_idx1; eauto.
+  - intros r k Hk. rewrite Hi in Hk. destruct (r_idx2 pa HR r k Hk) as [i [n [A [B C]]]].
+    destruct (strip_nth _ _ i n Hn A) as [n' [A' B']]. apply strip_fields in B'. destruct B' as [B' _].
+    exists i, n'. rewrite Ho. split; [exact A'|]. split; congruence.
+  - intros r. rewrite Hb, Ha. apply (r_bs pa HR).
+Qed.
+Lemma Links_same_tree s0 pa pa' : same_tree pa pa' -> Links s0 pa -> Links s0 pa'.
+Proof.
+  intros HS [[n0 [H0 [Hs Ht]]] Hr]. pose proof HS as [Hi [Hb [Ho Hn]]]. constructor.
+  - destruct (strip_nth _ _ 0%nat n0 Hn H0) as [n' [A B]]. apply strip_fields in B. destruct B as [B1 [B2 _]].
+    exists n'. split; [exact A|]. split; congruence.
+  - intros i n' Hn' Hpos. destruct (same_tree_sym_nth pa pa' i n' HS Hn') as [n [A B]].
+    apply strip_fields in B. destruct B as [B1 [B2 [_ [_ B5]]]]. destruct (Hr i n A Hpos) as [X [Y Z]].
+    rewrite Hi, Ho, B1, B2, B5. auto.
+Qed.
+
+Lemma getNode_nth fx pa ix n : getNode fx pa ix = Ok n -> nthN (pa_nodes pa) (ix - pa_off pa) = Some n.
+Proof.
+  unfold getNode. destruct (ix <? pa_off pa); [discriminate|]. destruct (if f_getnode fx then _ else _); [discriminate|].
+  destruct (nthN (pa_nodes pa) (ix - pa_off pa)); [|discriminate]. intros H. inversion H. reflexivity.
+Qed.
+Lemma strip_updN l k (x y : node) : nthN l k = Some y -> strip x = strip y -> map strip (updN l k x) = map strip l.
+Proof.
+  unfold updN, nthN. destruct (k <? lenN l); [|discriminate]. generalize (N.to_nat k) as i. clear k.
+  induction l as [|a l IH]; intros i Hi Hs; [destruct i; discriminate|].
+  destruct i; cbn in *; [inversion Hi; subst; rewrite Hs; reflexivity|]. f_equal. apply IH; assumption.
+Qed.
+
+Lemma maybeUpdate_same_tree fx p c pa : same_tree pa (fst (maybeUpdate fx p c pa)).
+Proof.
+  unfold maybeUpdate, mbind, get, lift_o, ret, put.
+  destruct (getNode fx pa c) as [child| | | |]; try apply same_tree_refl.
+  destruct (getNode fx pa p) as [parent| | | |] eqn:Ep; try apply same_tree_refl.
+  destruct (nodeLeadsToViableHead fx pa child) as [cl| | | |]; try apply same_tree_refl.
+  assert (Hput : forall a b, same_tree pa (with_nodes pa (updN (pa_nodes pa) (p - pa_off pa) (set_best parent a b)))).
+  { intros a b. unfold same_tree, with_nodes. cbn. repeat split. eapply strip_updN; [eapply getNode_nth; eauto|apply strip_set_best]. }
+  repeat match goal with
+         | |- same_tree pa (fst (let (_, _) := (if ?b then _ else _) _ in _)) => destruct b
+         | |- same_tree pa (fst (let (_, _) := match ?x with _ => _ end in _)) => destruct x
+         | |- same_tree pa (fst (match ?x with _ => _ end)) => destruct x
+         | |- same_tree pa (fst (match ?x with _ => _ end _)) => destruct x
+         end; cbn [fst]; try apply same_tree_refl; try apply Hput.
+Qed.
+
+Lemma connections_loop_same_tree fx : forall k pa, same_tree pa (fst (connections_loop fx k pa)).
+Proof.
+  induction k; intros pa; cbn [connections_loop]; [apply same_tree_refl|].
+  unfold mbind at 1. unfold get at 1. unfold mbind at 1. unfold lift_o at 1.
+  destruct (rawNode pa (N.of_nat k)) as [node| | | |]; try apply same_tree_refl.
+  unfold mbind at 1.
+  destruct (negb (n_fp node =? NONE) && _).
+  - pose proof (maybeUpdate_same_tree fx (n_fp node) (add64 (pa_off pa) (N.of_nat k)) pa) as H.
+    destruct (maybeUpdate fx (n_fp node) (add64 (pa_off pa) (N.of_nat k)) pa) as [pa1 o]. cbn [fst] in H.
+    destruct o; try exact H. eapply same_tree_trans; [exact H|apply IHk].
+  - cbn [ret]. apply IHk.
+Qed.
+
+Lemma ensureConnections_same_tree fx pa : same_tree pa (fst (ensureConnections fx pa)).
+Proof.
+  unfold ensureConnections, mbind, get. destruct (pa_upd pa); [apply same_tree_refl|].
+  unfold updateConnections, mbind, get, put.
+  pose proof (connections_loop_same_tree fx (length (pa_nodes pa)) pa) as H.
+  destruct (connections_loop fx (length (pa_nodes pa)) pa) as [pa1 o]. cbn [fst] in H.
+  destruct o; cbn [fst]; exact H.
+Qed.
+
+Lemma FindHead_same_tree fx r s pa : same_tree pa (fst (FindHead fx r s pa)).
+Proof.
+  unfold FindHead. unfold mbind at 1.
+  pose proof (ensureConnections_same_tree fx pa) as H.
+  destruct (ensureConnections fx pa) as [pa1 o]. cbn [fst] in H. destruct o; try exact H.
+  unfold mbind, get, lift_o, ret, fail.
+  destruct (idx_get (pa_idx pa1) (r, s)); [|exact H].
+  destruct (getNode fx pa1 n) as [an| | | |]; try exact H.
+  destruct (getNode fx pa1 (if n_bd an =? NONE then n else n_bd an)) as [bn| | | |]; try exact H.
+  destruct (viable pa1 bn); exact H.
+Qed.
+(* the head FindHead answers is a node of the array *)
+Lemma FindHead_known fx r s pa pa1 h : FindHead fx r s pa = (pa1, Ok h) ->
+  exists ix n, getNode fx pa1 ix = Ok n /\ n_ref n = h.
+Proof.
+  unfold FindHead. unfold mbind at 1. destruct (ensureConnections fx pa) as [pa0 o]. destruct o; try discriminate.
+  unfold mbind, get, lift_o, ret, fail.
+  destruct (idx_get (pa_idx pa0) (r, s)); [|discriminate].
+  destruct (getNode fx pa0 n) as [an| | | |]; try discriminate.
+  destruct (getNode fx pa0 (if n_bd an =? NONE then n else n_bd an)) as [bn| | | |] eqn:E; try discriminate.
+  destruct (viable pa0 bn); [|discriminate]. intros H. inversion H. subst. eauto.
+Qed.
+
+(* ================= (C) the walks ================= *)
+Lemma find_map_unique {A B} (f : B -> bool) (g : A -> B) : forall (l : list A) j n,
+  nth_error l j = Some n -> f (g n) = true ->
+  (forall j' n', nth_error l j' = Some n' -> f (g n') = true -> j' = j) ->
+  find f (map g l) = Some (g n).
+Proof.
+  induction l as [|a l IH]; intros j n Hj Hf Hu; [destruct j; discriminate|]. cbn [map find].
+  destruct (f (g a)) eqn:E.
+  - assert (0%nat = j) by (apply (Hu 0%nat a); auto). subst j. cbn in Hj. inversion Hj. reflexivity.
+  - destruct j; [cbn in Hj; inversion Hj; subst; congruence|]. cbn in Hj.
+    apply (IH j n Hj Hf). intros j' n' Hj' Hf'. specialize (Hu (S j') n' Hj' Hf'). lia.
+Qed.
+
+Lemma Rel_find pa r k : Rel pa -> idx_get (pa_idx pa) r = Some k ->
+  exists j n, k = pa_off pa + N.of_nat j /\ nth_error (pa_nodes pa) j = Some n /\ n_ref n = r /\
+              find_node (abs pa) r = Some (abs_node n).
+Proof.
+  intros HR Hk. destruct (r_idx2 pa HR r k Hk) as [j [n [Hj [Hr Hkk]]]]. exists j, n. repeat split; auto.
+  unfold find_node, abs. apply (find_map_unique (fun m => ref_eqb (s_ref m) r) abs_node (pa_nodes pa) j n Hj).
+  - cbn. rewrite Hr. apply ref_eqb_refl.
+  - intros j' n' Hj' Hf. cbn in Hf. apply ref_eqb_eq in Hf. pose proof (r_idx1 pa HR j' n' Hj') as E. rewrite Hf, Hk in E.
+    inversion E. lia.
+Qed.
+
+Lemma getNode_at pa i n : nth_error (pa_nodes pa) i = Some n -> getNode fixed pa (pa_off pa + N.of_nat i) = Ok n.
+Proof.
+  intros Hi. unfold getNode. cbn [f_getnode fixed].
+  replace (pa_off pa + N.of_nat i <? pa_off pa) with false by (symmetry; apply N.ltb_ge; lia).
+  replace (pa_off pa + N.of_nat i - pa_off pa) with (N.of_nat i) by lia.
+  pose proof (lenN_lt_nth _ _ _ Hi) as Hl.
+  replace (lenN (pa_nodes pa) <=? N.of_nat i) with false by (symmetry; apply N.leb_gt; exact Hl).
+  unfold nthN. replace (N.of_nat i <? lenN (pa_nodes pa)) with true by (symmetry; apply N.ltb_lt; exact Hl).
+  rewrite Nat2N.id, Hi. reflexivity.
+Qed.
+
+Lemma trans_parent_ref t n :
+  trans_parent t (abs_node n) =
+  if (n_parent n =? fst (n_ref n)) && (snd (n_ref n) =? 0) then None else find_node t (tparent_ref n).
+Proof.
+  unfold trans_parent, is_block, tparent_ref. cbn [abs_node s_parent s_ref].
+  destruct (n_parent n =? fst (n_ref n)); cbn [negb andb]; [destruct (snd (n_ref n) =? 0); reflexivity|reflexivity].
+Qed.
+
+Lemma tp_rest s0 pa i n : Rel pa -> Links s0 pa -> nth_error (pa_nodes pa) i = Some n -> (0 < i)%nat ->
+  exists j p, n_tp n = pa_off pa + N.of_nat j /\ (j < i)%nat /\ nth_error (pa_nodes pa) j = Some p /\
+              trans_parent (abs pa) (abs_node n) = Some (abs_node p).
+Proof.
+  intros HR HL Hi Hpos. destruct (l_rest s0 pa HL i n Hi Hpos) as [Hs [Hk Hlt]].
+  destruct (Rel_find pa _ _ HR Hk) as [j [p [Hj [Hp [_ Hf]]]]]. exists j, p. repeat split; auto; [lia|].
+  rewrite trans_parent_ref. replace (snd (n_ref n) =? 0) with false by (symmetry; apply N.eqb_neq; lia).
+  rewrite andb_false_r. exact Hf.
+Qed.
+
+Lemma tp_first s0 pa n0 : Rel pa -> Links s0 pa -> nth_error (pa_nodes pa) 0 = Some n0 ->
+  n_tp n0 = NONE /\ trans_parent (abs pa) (abs_node n0) = None.
+Proof.
+  intros HR HL H0. destruct (l_first s0 pa HL) as [n0' [H0' [Hs Ht]]]. rewrite H0 in H0'. inversion H0'. subst n0'.
+  split; [exact Ht|]. rewrite trans_parent_ref.
+  destruct ((n_parent n0 =? fst (n_ref n0)) && (snd (n_ref n0) =? 0)) eqn:E; [reflexivity|].
+  destruct (find_node (abs pa) (tparent_ref n0)) as [m|] eqn:Ef; [exfalso|reflexivity].
+  apply find_node_some in Ef. destruct Ef as [Hin Hr]. apply abs_in in Hin. destruct Hin as [j [x [Hj Hx]]]. subst m. cbn in Hr.
+  pose proof (Links_slot_ge s0 pa j x HL Hj) as Hge.
+  unfold tparent_ref in Hr. destruct (n_parent n0 =? fst (n_ref n0)) eqn:Ep.
+  - cbn [andb] in E. apply N.eqb_neq in E. rewrite Hr in Hge. cbn in Hge. lia.
+  - (* a node (parent root, s0): only the first node sits at s0, and its root is not its parent root *)
+    destruct j.
+    + rewrite H0 in Hj. inversion Hj. subst x. rewrite Hr in Ep. cbn in Ep. rewrite N.eqb_refl in Ep. discriminate.
+    + destruct (l_rest s0 pa HL (S j) x Hj ltac:(lia)) as [Hgt _]. rewrite Hr in Hgt. cbn in Hgt. lia.
+Qed.
+
+Definition chain_of (t : tree) (fs : nat) (m : snode) : list (N * N * N) :=
+  map (fun x => (s_ref x, s_parent x)) (m :: ancestors_from (trans_parent t) fs m).
+
+(* the chain walk of CanonicalChain from the node at position i = the Spec's walk along transition parents *)
+Lemma chain_walk s0 pa : Rel pa -> Links s0 pa -> created pa < two64 ->
+  forall i n, nth_error (pa_nodes pa) i = Some n ->
+  forall fa fs acc, (i + 2 <= fa)%nat -> (i <= fs)%nat ->
+  chain_loop fixed fa pa (pa_off pa + N.of_nat i) acc = Ok (rev acc ++ chain_of (abs pa) fs (abs_node n)).
+Proof.
+  intros HR HL Hc. induction i as [i IH] using lt_wf_ind. intros n Hi fa fs acc Hfa Hfs.
+  destruct fa as [|fa]; [lia|]. cbn [chain_loop].
+  pose proof (lenN_lt_nth _ _ _ Hi) as Hl. unfold created in Hc.
+  replace (pa_off pa + N.of_nat i =? NONE) with false by (symmetry; apply N.eqb_neq; unfold NONE, max64, two64 in *; lia).
+  replace (pa_off pa <=? pa_off pa + N.of_nat i) with true by (symmetry; apply N.leb_le; lia).
+  cbn [negb andb]. rewrite (getNode_at pa i n Hi). cbn [bind].
+  destruct i as [|i'].
+  - destruct (tp_first s0 pa n HR HL Hi) as [Ht Hp]. rewrite Ht.
+    destruct fa as [|fa]; [lia|]. cbn [chain_loop]. rewrite N.eqb_refl. cbn [negb andb rev].
+    unfold chain_of. destruct fs; cbn [ancestors_from]; [|rewrite Hp]; cbn [map abs_node s_ref s_parent]; reflexivity.
+  - destruct (tp_rest s0 pa (S i') n HR HL Hi ltac:(lia)) as [j [p [Ht [Hj [Hpj Hp]]]]]. rewrite Ht.
+    destruct fs as [|fs]; [lia|].
+    rewrite (IH j ltac:(lia) p Hpj fa fs _ ltac:(lia) ltac:(lia)).
+    unfold chain_of. cbn [ancestors_from]. rewrite Hp. cbn [rev map abs_node s_ref s_parent]. rewrite <- app_assoc. reflexivity.
+Qed.
+
+(* C11 CanonicalChain: whatever head the array's FindHead answers, the chain returned is the Spec's chain from that node
+   down to the root of the tree *)
+Theorem CanonicalChain_walk_refines s0 pa r s pa1 out :
+  Rel pa -> Links s0 pa -> created pa < two64 ->
+  CanonicalChain fixed r s pa = (pa1, Ok out) ->
+  exists h hn, fst (FindHead fixed r s pa) = pa1 /\ snd (FindHead fixed r s pa) = Ok h /\
+               find_node (abs pa) h = Some hn /\ out = spec_chain_from (abs pa) hn /\
+               Rel pa1 /\ Links s0 pa1 /\ abs pa1 = abs pa.
+Proof.
+  intros HR HL Hc. unfold CanonicalChain. unfold mbind at 1.
+  pose proof (FindHead_same_tree fixed r s pa) as HS. pose proof (FindHead_known fixed r s pa) as HK.
+  destruct (FindHead fixed r s pa) as [pa0 o]. cbn [fst snd] in *. destruct o as [h| | | |]; try discriminate.
+  unfold mbind, get, lift_o.
+  pose proof (Rel_same_tree _ _ HS HR) as HR0. pose proof (Links_same_tree _ _ _ HS HL) as HL0.
+  pose proof (same_tree_abs _ _ HS) as Ha.
+  destruct (HK pa0 h eq_refl) as [ix [n [Hg Hn]]].
+  pose proof (getNode_nth _ _ _ _ Hg) as Hnth. unfold nthN in Hnth.
+  destruct (ix - pa_off pa0 <? lenN (pa_nodes pa0)) eqn:El; [|discriminate].
+  set (i := N.to_nat (ix - pa_off pa0)) in *.
+  pose proof (r_idx1 pa0 HR0 i n Hnth) as Hidx. rewrite Hn in Hidx.
+  destruct (Rel_find pa0 h _ HR0 Hidx) as [j [n' [Hj [Hnj [_ Hf]]]]].
+  assert (j = i) by lia. subst j. rewrite Hnth in Hnj. inversion Hnj. subst n'.
+  assert (Hc0 : created pa0 < two64).
+  { unfold created in *. destruct HS as [_ [_ [Ho Hm]]]. rewrite Ho. unfold lenN.
+    replace (length (pa_nodes pa0)) with (length (pa_nodes pa)); [exact Hc|].
+    rewrite <- (map_length strip (pa_nodes pa)), <- Hm, map_length. reflexivity. }
+  unfold idx_get0. rewrite Hidx.
+  rewrite (chain_walk s0 pa0 HR0 HL0 Hc0 i n Hnth (S (S (length (pa_nodes pa0)))) (tree_fuel (abs pa0)) []).
+  - intros H. assert (E1 : pa0 = pa1) by congruence.
+    assert (E2 : out = chain_of (abs pa0) (tree_fuel (abs pa0)) (abs_node n)) by (cbn [rev app] in H; congruence).
+    subst pa1 out. exists h, (abs_node n). rewrite <- Ha.
+    split; [reflexivity|]. split; [reflexivity|]. split; [exact Hf|]. split; [reflexivity|]. split; [exact HR0|]. split; [exact HL0|reflexivity].
+  - assert (i < length (pa_nodes pa0))%nat by (apply nth_error_Some; congruence). lia.
+  - assert (i < length (pa_nodes pa0))%nat by (apply nth_error_Some; congruence).
+    unfold tree_fuel, abs. rewrite map_length. lia.
+Qed.
+
+(* the Spec's slot walk over a chain (= spec_canon_walk's body) *)
+Definition walk_list (wb : bool) (sl : N) (chain : list snode) : outcome (N * N) :=
+  if wb then
+    match find (fun n => snd (s_ref n) <=? sl) chain with
+    | Some n => if snd (s_ref n) =? sl then (if is_block n then Ok (s_ref n) else Ok zero_ref) else Err
+    | None => Err
+    end
+  else
+    match find (fun n => negb (is_block n) && (snd (s_ref n) <=? sl)) chain with
+    | Some n => if snd (s_ref n) =? sl then Ok (s_ref n) else Err
+    | None => Err
+    end.
+
+Lemma canon_walk s0 pa sl wb : Rel pa -> Links s0 pa -> created pa < two64 ->
+  forall i n, nth_error (pa_nodes pa) i = Some n ->
+  forall fa fs, (i + 2 <= fa)%nat -> (i <= fs)%nat ->
+  canon_at_loop fixed fa pa (pa_off pa + N.of_nat i) sl wb =
+  walk_list wb sl (abs_node n :: ancestors_from (trans_parent (abs pa)) fs (abs_node n)).
+Proof.
+  intros HR HL Hc. induction i as [i IH] using lt_wf_ind. intros n Hi fa fs Hfa Hfs.
+  destruct fa as [|fa]; [lia|]. cbn [canon_at_loop].
+  pose proof (lenN_lt_nth _ _ _ Hi) as Hl. unfold created in Hc.
+  replace (pa_off pa + N.of_nat i =? NONE) with false by (symmetry; apply N.eqb_neq; unfold NONE, max64, two64 in *; lia).
+  replace (pa_off pa <=? pa_off pa + N.of_nat i) with true by (symmetry; apply N.leb_le; lia).
+  cbn [negb andb]. rewrite (getNode_at pa i n Hi). cbn [bind].
+  assert (Hblk : is_block (abs_node n) = negb (n_parent n =? fst (n_ref n))) by reflexivity.
+  (* the continuation: the walk over the ancestors *)
+  assert (Hrec : canon_at_loop fixed fa pa (n_tp n) sl wb =
+                 walk_list wb sl (ancestors_from (trans_parent (abs pa)) fs (abs_node n))).
+  { destruct i as [|i'].
+    - destruct (tp_first s0 pa n HR HL Hi) as [Ht Hp]. rewrite Ht.
+      destruct fa as [|fa]; [lia|]. cbn [canon_at_loop]. rewrite N.eqb_refl. cbn [negb andb].
+      destruct fs; cbn [ancestors_from]; [|rewrite Hp]; unfold walk_list; destruct wb; reflexivity.
+    - destruct (tp_rest s0 pa (S i') n HR HL Hi ltac:(lia)) as [j [p [Ht [Hj [Hpj Hp]]]]]. rewrite Ht.
+      destruct fs as [|fs]; [lia|]. cbn [ancestors_from]. rewrite Hp.
+      apply (IH j ltac:(lia) p Hpj fa fs); lia. }
+  unfold walk_list at 1. destruct wb; cbn [negb andb find].
+  - cbn [abs_node s_ref].
+    destruct (N.eqb_spec (snd (n_ref n)) sl) as [E|E].
+    + subst sl. rewrite N.leb_refl. cbn [s_ref abs_node]. rewrite N.eqb_refl. change (mkSN (n_ref n) (n_parent n) (n_je n) (n_fe n)) with (abs_node n). rewrite Hblk. rewrite (N.eqb_sym (fst (n_ref n)) (n_parent n)).
+      destruct (n_parent n =? fst (n_ref n)); reflexivity.
+    + destruct (N.ltb_spec (snd (n_ref n)) sl).
+      * replace (snd (n_ref n) <=? sl) with true by (symmetry; apply N.leb_le; lia).
+        cbn [s_ref abs_node]. replace (snd (n_ref n) =? sl) with false by (symmetry; apply N.eqb_neq; exact E). reflexivity.
+      * replace (snd (n_ref n) <=? sl) with false by (symmetry; apply N.leb_gt; lia).
+        rewrite Hrec. reflexivity.
+  - rewrite Hblk. cbn [abs_node s_ref]. destruct (n_parent n =? fst (n_ref n)) eqn:Ep; cbn [negb andb].
+    + destruct (N.eqb_spec (snd (n_ref n)) sl) as [E|E].
+      * subst sl. rewrite N.leb_refl. cbn [s_ref abs_node]. rewrite N.eqb_refl. reflexivity.
+      * destruct (N.ltb_spec (snd (n_ref n)) sl).
+        -- replace (snd (n_ref n) <=? sl) with true by (symmetry; apply N.leb_le; lia).
+           cbn [s_ref abs_node]. replace (snd (n_ref n) =? sl) with false by (symmetry; apply N.eqb_neq; exact E). reflexivity.
+        -- replace (snd (n_ref n) <=? sl) with false by (symmetry; apply N.leb_gt; lia).
+           rewrite Hrec. reflexivity.
+    + rewrite Hrec. reflexivity.
+Qed.
+
+(* C11 CanonAtSlot, the walking case (requested slot above the anchor root's lowest slot and below the head the array's FindHead
+   answers): the result is the Spec's walk from that head *)
+Theorem CanonAtSlot_walk_refines s0 pa a lo sl wb pa1 h :
+  Rel pa -> Links s0 pa -> created pa < two64 ->
+  low (abs pa) a = Some lo -> lo < sl ->
+  FindHead fixed a lo pa = (pa1, Ok h) -> sl < snd h ->
+  exists hn, find_node (abs pa) h = Some hn /\
+             CanonAtSlot fixed a sl wb pa = (pa1, spec_canon_walk (abs pa) hn sl wb).
+Proof.
+  intros HR HL Hc Hlo Hlt HF Hh.
+  pose proof (FindHead_same_tree fixed a lo pa) as HS. rewrite HF in HS. cbn [fst] in HS.
+  pose proof (Rel_same_tree _ _ HS HR) as HR1. pose proof (Links_same_tree _ _ _ HS HL) as HL1.
+  pose proof (same_tree_abs _ _ HS) as Ha.
+  destruct (FindHead_known fixed a lo pa pa1 h HF) as [ix [n [Hg Hn]]].
+  pose proof (getNode_nth _ _ _ _ Hg) as Hnth. unfold nthN in Hnth.
+  destruct (ix - pa_off pa1 <? lenN (pa_nodes pa1)) eqn:El; [|discriminate].
+  set (i := N.to_nat (ix - pa_off pa1)) in *.
+  pose proof (r_idx1 pa1 HR1 i n Hnth) as Hidx. rewrite Hn in Hidx.
+  destruct (Rel_find pa1 h _ HR1 Hidx) as [j [n' [Hj [Hnj [_ Hf]]]]].
+  assert (j = i) by lia. subst j. rewrite Hnth in Hnj. inversion Hnj. subst n'.
+  assert (Hc1 : created pa1 < two64).
+  { unfold created in *. destruct HS as [_ [_ [Ho Hm]]]. rewrite Ho. unfold lenN.
+    replace (length (pa_nodes pa1)) with (length (pa_nodes pa)); [exact Hc|].
+    rewrite <- (map_length strip (pa_nodes pa)), <- Hm, map_length. reflexivity. }
+  exists (abs_node n). rewrite <- Ha. split; [exact Hf|].
+  unfold CanonAtSlot. unfold mbind at 1. unfold get at 1. rewrite (r_bs pa HR a), Hlo.
+  replace (sl <? lo) with false by (symmetry; apply N.ltb_ge; lia).
+  replace (lo =? sl) with false by (symmetry; apply N.eqb_neq; lia).
+  unfold mbind at 1. rewrite HF.
+  replace (snd h <=? sl) with false by (symmetry; apply N.leb_gt; exact Hh).
+  unfold mbind, get, lift_o. unfold idx_get0. rewrite Hidx. f_equal.
+  assert (Hi : (i < length (pa_nodes pa1))%nat) by (apply nth_error_Some; congruence).
+  rewrite (canon_walk s0 pa1 sl wb HR1 HL1 Hc1 i n Hnth (S (S (length (pa_nodes pa1)))) (tree_fuel (abs pa1))); [reflexivity|lia|].
+  unfold tree_fuel, abs. rewrite map_length. lia.
+Qed.
+
+(* ================= all insertion histories from a fresh array ================= *)
+Theorem insert_history_invariants : forall parent r s je fe sn ops,
+  let pa0 := new_array parent r s je fe sn in
+  iops_dom ops (abs pa0) -> created (fst (impl_iops ops pa0)) < two64 ->
+  let pa := fst (impl_iops ops pa0) in
+  Rel pa /\ Links s pa /\ Contig (abs pa) /\ abs pa = fst (spec_iops ops (abs pa0)) /\
+  snd (impl_iops ops pa0) = map Ok (snd (spec_iops ops (abs pa0))).
+Proof.
+  intros parent r s je fe sn ops pa0 Hdom Hc pa.
+  pose proof (Rel_new_array parent r s je fe sn) as HR0. pose proof (Links_new_array parent r s je fe sn) as HL0.
+  destruct (insert_refines ops pa0 HR0 Hdom Hc) as [Ho [HR [Ha _]]].
+  pose proof (insert_links s ops pa0 HR0 HL0 Hdom Hc) as HL.
+  split; [exact HR|]. split; [exact HL|]. split; [|split; [exact Ha|exact Ho]].
+  unfold pa. rewrite Ha. apply Contig_spec_iops. apply Contig_single.
+Qed.
